@@ -16,7 +16,7 @@ ID = 'C07'
 COQ_DIR = 'C07'
 MODEL_FILES = ('InstQ.v',)
 PROPS_FILES = ('Props.v',)
-COQ_HEADER = 'From V Require Import Common.Num C07.Model C07.Rewire C07.InstQ.\nOpen Scope Q_scope.'
+COQ_HEADER = 'From V Require Import Common.Num C07.Model C07.Rewire C07.Packages C07.InstQ.\nOpen Scope Q_scope.'
 RULE = ('chem cases: one real Chemical per case in one of 15 configurations (Cn PhaseHandle / phase-locked at s,l,g / no handle) x '
         'phase_ref s,l,g, data Tm,Tb,Hfus,Sfus,S0 drawn from dyadic alphabets including None and 0.0, Hvap handle present / '
         'falsy / returning None or 0, per-phase Cn handles truthy or falsy; 4-9 queries H|S(phase in s,l,g,S,L; T in T_ref,Tm,Tb,'
@@ -72,7 +72,8 @@ def translate():
     i3 = mm.run(vf.REPO, out_dir)
     i4 = importlib.import_module('C07_init_data').run(vf.REPO, out_dir)
     i5 = importlib.import_module('C07_rewire').run(vf.REPO, out_dir)
-    return [i1, i2, i3, i4, i5]
+    i6 = importlib.import_module('C07_packages').run(vf.REPO, out_dir)
+    return [i1, i2, i3, i4, i5, i6]
 
 
 # ---------------------------------------------------------------------------------------------- environment
@@ -256,6 +257,67 @@ def run_init_data(case):
             'Sfus': ['err', err] if err else (['none'] if c._Sfus is None else ['ok', fr_json(frac(c._Sfus))])}
 
 
+# ---------------------------------------------------------------------------------------------- property packages
+def run_pkg_ops(chems, ops):
+    """store of real Thermo / IdealThermo objects derived by the operations"""
+    tmo = env()['tmo']
+    store = []
+    for o in ops:
+        if o[0] == 'new': store.append(tmo.Thermo([chems[i] for i in o[1]], skip_checks=True))
+        elif o[0] == 'subset': store.append(store[o[1]].subset([chems[i] for i in o[2]]))
+        elif o[0] == 'extended': store.append(store[o[1]].extended([chems[i] for i in o[2]]))
+        elif o[0] == 'ideal': store.append(store[o[1]].ideal())
+        else: raise ValueError(o[0])
+    return store
+
+
+def gen_pkg(rng):
+    nc = rng.randint(3, 5)
+    specs = [gen_spec(rng, complete=rng.random() < 0.8) for _ in range(nc)]
+    first = rng.sample(range(nc), rng.randint(2, nc))
+    ops = [['new', first]]
+    sizes = [list(first)]
+    ideal = [False]
+    for _ in range(rng.randint(1, 4)):
+        i = rng.randrange(len(sizes)); cur = sizes[i]
+        r = rng.random()
+        if r < 0.45:                      # the same chemicals in another order
+            sel = list(cur); rng.shuffle(sel)
+            ops.append(['subset', i, sel]); sizes.append(sel); ideal.append(ideal[i])
+        elif r < 0.7 and len(cur) > 1:    # a strict subset, order drawn afresh
+            sel = rng.sample(cur, rng.randint(1, len(cur) - 1))
+            ops.append(['subset', i, sel]); sizes.append(sel); ideal.append(ideal[i])
+        elif r < 0.85 and not ideal[i]:
+            extra = rng.sample(range(nc), rng.randint(1, 2))
+            ops.append(['extended', i, extra]); sizes.append(cur + [x for x in extra if x not in cur]); ideal.append(False)
+        else:
+            ops.append(['ideal', i]); sizes.append(list(cur)); ideal.append(True)
+    obs = []
+    for k, cur in enumerate(sizes):
+        for _ in range(2):
+            kind = rng.choice(['H', 'S', 'Cn'])
+            mol = [rng.choice(MOLS) for _ in cur]
+            if rng.random() < 0.4:        # one component only: the pure-component limit
+                j = rng.randrange(len(cur)); mol = [0.] * len(cur); mol[j] = rng.choice(MOLS[1:])
+            obs.append([kind, k, rng.choice('slg'), mol, rng.choice(TS[:4]), rng.choice(PS[:4])])
+    return {'type': 'pkg', 'chems': specs, 'ops': ops, 'obs': obs, 'ln': [0., 1.]}
+
+
+def run_pkg(case):
+    built = [build_chem(s) for s in case['chems']]
+    chems = [b[0] for b in built]
+    store = run_pkg_ops(chems, case['ops'])
+    ids = [c.ID for c in chems]
+    vals = []
+    for kind, k, ph, mol, T, P in case['obs']:
+        mx = store[k].mixture
+        if kind == 'H': vals.append(observe(mx.H, ph, mol, T, P))
+        elif kind == 'S': vals.append(observe(mx.S, ph, mol, T, P))
+        else: vals.append(observe(mx.Cn, ph, mol, T))
+    return {'wiring_err': [b[2] for b in built], 'vals': vals, 'rec': [rec_json(b[1]) for b in built],
+            'chem_lists': [[ids.index(i) for i in t.chemicals.IDs] for t in store]}
+
+
 # ---------------------------------------------------------------------------------------------- histories
 class harvest_integrals:
     """records (constant of the handle, a, b) -> value of every integral the real heat-capacity handles compute"""
@@ -327,6 +389,7 @@ def apply_hist_op(store, o):
         select_const(c.Hvap, HHV, o[2]); c.reset_free_energies()
     elif name == 'copymodels': c.copy_models_from(store[o[2]], list(o[3]))
     elif name == 'atstate': c.at_state(o[2])
+    elif name == 'atstatecopy': store.append(c.at_state(o[2], copy=True))
     elif name == 'setpr': c.phase_ref = o[2]
     elif name == 'setsc': setattr(c, o[2], o[3])
     else: raise ValueError(name)
@@ -363,7 +426,7 @@ def gen_hist(rng):
                 'hv': rng.choice(HHV + [None]) if rng.random() < 0.85 else None}
     chems = [hspec() for _ in range(rng.randint(1, 2))]
     n = len(chems)
-    locked = [False] * n
+    locked = [None] * n          # locked phase of each chemical in the store
     ops = []
     for _ in range(rng.randint(2, 7)):
         r = rng.random()
@@ -381,8 +444,10 @@ def gen_hist(rng):
             names = rng.choice([['Hvap'], ['Cn'], ['Cn', 'Hvap'], ['Psat'], ['Hvap', 'Psat'], ['sigma']])
             if (locked[i] or locked[j]) and 'Cn' in names: names = ['Hvap']
             ops.append(['copymodels', i, j, names])
-        elif r < 0.76:
-            ph = rng.choice('slg'); ops.append(['atstate', i, ph]); locked[i] = locked[i] or True
+        elif r < 0.73:
+            ph = rng.choice('slg'); ops.append(['atstate', i, ph]); locked[i] = locked[i] or ph
+        elif r < 0.78:
+            ph = locked[i] or rng.choice('slg'); ops.append(['atstatecopy', i, ph]); n += 1; locked.append(ph)
         elif r < 0.84:
             ops.append(['setpr', i, rng.choice('slg')])
         elif r < 0.96:
@@ -477,6 +542,10 @@ def gen_cases(rng, tier):
             c = gen_hist(rng); c['ln'] = ln
             cases.append(c)
             continue
+        if k < 24:
+            c = gen_pkg(rng); c['ln'] = ln
+            cases.append(c)
+            continue
         if r < 0.16:
             cases.append({'type': 'sfus', 'Hfus': rng.choice([None, None, 0., 6010., 1000.5, -8.]), 'Tm': rng.choice([None, None, 0., 273.25, 150.]),
                           'db_Hfus': rng.choice([None, 0., 6010., 2.5]), 'db_Tm': rng.choice([None, 0., 273.25, 200.]), 'ln': ln})
@@ -537,6 +606,9 @@ def run_impl(case):
     if case['type'] == 'hist':
         with patched_log(case['ln']):
             return run_hist(case)
+    if case['type'] == 'pkg':
+        with patched_log(case['ln']):
+            return run_pkg(case)
     with patched_log(case['ln']):
         if case['type'] == 'chem':
             c, rec, err = build_chem(case['chem'])
@@ -619,6 +691,23 @@ def coq_case(case, out):
         return f'(sfus_case {qo(case["Hfus"])} {qo(case["Tm"])} {so(out["stored_Hfus"])} {so(out["stored_Tm"])} {cpyv(out["Sfus"])})'
     if case['type'] == 'hist':
         return coq_hist(case, out, lnc, lnd)
+    if case['type'] == 'pkg':
+        if any(out['wiring_err']):
+            raise ValueError('wiring raised while building a package case')
+        def nl(x): return clist([f'{i}%nat' for i in x])
+        ops = []
+        for o in case['ops']:
+            if o[0] == 'new': ops.append(f'(PNew {nl(o[1])})')
+            elif o[0] == 'subset': ops.append(f'(PSubset {o[1]}%nat {nl(o[2])})')
+            elif o[0] == 'extended': ops.append(f'(PExtended {o[1]}%nat {nl(o[2])})')
+            else: ops.append(f'(PIdeal {o[1]}%nat)')
+        obs = []
+        for kind, k, ph, mol, T, P in case['obs']:
+            if kind == 'Cn': obs.append(f'(PoCn {k}%nat {PHC[ph]} {cmol(mol)} {qo(T)})')
+            else: obs.append(f'(Po{kind} {k}%nat {PHC[ph]} {cmol(mol)} {qo(T)} {qo(P)})')
+        chems = clist([cchem(s_, r) for s_, r in zip(case['chems'], out['rec'])])
+        return (f'(pkg_case {lnc} {lnd} {chems} {clist(ops)} {clist([nl(x) for x in out["chem_lists"]])} '
+                f'{clist(obs)} {exp})')
     if case['type'] == 'chem':
         qs = clist([f'(Q{fn} {PHC[ph]} {qo(T)} {qo(P)})' for fn, ph, T, P in case['queries']])
         return (f'(chem_case {lnc} {lnd} {cchem(case["chem"], out["rec"])} {qs} '
@@ -671,6 +760,7 @@ def coq_hist(case, out, lnc, lnd):
         elif n == 'muthv': ops.append(f'(OMutHv _ _ _ {i} {qo(o[2])})')
         elif n == 'copymodels': ops.append(f'(OCopyModels _ _ _ {i} {o[2]}%nat {clist([MN.get(x, "MOther") for x in o[3]])})')
         elif n == 'atstate': ops.append(f'(OAtState _ _ _ {i} {PHC[o[2]]})')
+        elif n == 'atstatecopy': ops.append(f'(OAtStateCopy _ _ _ {i} {PHC[o[2]]})')
         elif n == 'setpr': ops.append(f'(OSetPr _ _ _ {i} {PHC[o[2]]})')
         elif n == 'setsc': ops.append(f'(OSetSc _ _ _ {i} W{o[2]} (set_{o[2]} {q(o[3])}))')
     qs = clist([f'(Q{fn} {PHC[ph]} {qo(T)} {qo(P)})' for fn, ph, T, P in case['queries']])
@@ -693,6 +783,8 @@ def nontrivial(case, out):
 
 def classify(case, out):
     ks = ['type:' + case['type']]
+    if case['type'] == 'pkg':
+        return ks + ['pkg-op:' + o[0] for o in case['ops']] + [f'pkg-obs:{o[0]}:' + (v[0] if v[0] != 'err' else v[1]) for o, v in zip(case['obs'], out.get('vals', []))]
     if case['type'] == 'hist':
         for o, ok in zip(case['ops'], out.get('oks', [])):
             ks.append(f'hist-op:{o[0]}:' + ('ok' if ok is True else str(ok)))
@@ -991,6 +1083,7 @@ CORPUS = [
     {'type': 'hist', 'chems': [_HA], 'ops': [['copy', 0], ['redefcn', 0, [40., 128., 75.5]]], 'queries': _HQ, 'ln': [0., 1.]},
     {'type': 'hist', 'chems': [_HA], 'ops': [['copy', 0], ['redefcn', 1, [40., 128., 75.5]], ['setsc', 0, 'Tb', 400.5]], 'queries': _HQ, 'ln': [0., 1.]},
     {'type': 'hist', 'chems': [_HA, _HB], 'ops': [['copymodels', 0, 1, ['Hvap']]], 'queries': _HQ, 'ln': [0., 1.]},
+    {'type': 'hist', 'chems': [_HA, _HB], 'ops': [['atstatecopy', 0, 'g'], ['atstatecopy', 1, 's'], ['atstatecopy', 0, 'l'], ['atstate', 1, 'l']], 'queries': _HQ, 'ln': [0., 1.]},
     {'type': 'hist', 'chems': [dict(_HA, hv=None), _HB], 'ops': [['copymodels', 0, 1, ['Hvap', 'Psat']]], 'queries': _HQ, 'ln': [0., 1.]},
     {'type': 'hist', 'chems': [_HA, _HB], 'ops': [['copymodels', 0, 1, ['Cn']], ['redefcn', 1, [24., 24., 24.]], ['atstate', 1, 'g'], ['setpr', 0, 's']], 'queries': _HQ, 'ln': [0., 1.]},
     # the witness of mix_entropy_refuted, as a correspondence case (model and implementation must agree on it)
